@@ -54,6 +54,10 @@ Init ==
   \* independent, followed by nothing, an end hunk or another code hunk; and each of these cut after every long
   \/ \E h \in AmigaHunks : \E tail \in {"none", "end", "code"} : c = [k |-> "hunks", fmt |-> "amiga", h |-> h, tail |-> tail, cut |-> -1]
   \/ \E h \in {x \in AmigaHunks : x.n \in {1, 2} /\ x.m = x.n} : \E cut \in 0..14 : c = [k |-> "hunks", fmt |-> "amiga", h |-> h, tail |-> "end", cut |-> cut]
+  \* the hunk under test in front of the code hunk (the loader stops at the first code hunk), with the entry of the
+  \* header's size table that the loader uses to step over a hunk it does not know at boundary values (-4: back onto itself)
+  \/ \E h \in {x \in AmigaHunks : x.m = 1 /\ x.term} : \E tab \in {2, 0, -4, -8, -1, 2147483647} :
+        c = [k |-> "hunks1", fmt |-> "amiga", h |-> h, tab |-> tab]
 
 Next == FALSE /\ UNCHANGED c
 Emit == PrintT("CASE " \o ToJson(c))
